@@ -20,9 +20,11 @@ static Case genParseCase(Choices &c, int tier, const char *prop, GramOpts o, int
   if (regime == 1) { o.maxT = std::max(o.maxT, 6); o.maxN = std::max(o.maxN, 7); o.extraRules = std::max(o.extraRules, 8); o.maxRhs = std::max(o.maxRhs, 4); maxLen = tier ? 22 : 16; }
   GramDef gd;
   bool seqInner = regime == 2 && (c.chance(40) || getenv("VERIF_FORCE_SEQINNER")); // a list of phrases of a sequence grammar: cores recur with other distances
-  gd.raw = regime == 4 ? genChainGrammar(c, o) : (regime == 3 || seqInner) ? genSeqGrammar(c, o) : genGrammar(c, o);
+  bool tailInner = seqInner && (c.chance(50) || getenv("VERIF_FORCE_TAILINNER")); // ... or of items with a nullable tail
+  gd.raw = regime == 4 ? genChainGrammar(c, o) : tailInner ? genTailGrammar(c, o) : (regime == 3 || seqInner) ? genSeqGrammar(c, o) : genGrammar(c, o);
   if (regime == 4) maxLen = tier ? 18 : 14;
   if (regime == 3) maxLen = tier ? 12 : 9;
+  if (tailInner) { maxLen = tier ? 16 : 13; nInputs += 3; }
   WrapInfo wi;
   if (regime == 2) wi = wrapList(c, gd.raw, o);
   gd.strict = c.flip();
